@@ -83,4 +83,13 @@ def obligations(tier):
     for (c, l), fid in sorted(kf.items()):
         obs.append(Ob('O3.1-language-%s-%s' % (c, l), 'fn', L + 'inclusion', slices=[{'kind': 'number', 'culture': c, 'layout': l}], timeout=t, finding=fid,
                       descr='region of known finding %s' % fid))
+    mc = ['en-us', 'en-in', 'es-es', 'es-mx', 'fr-fr', 'pt-br', 'de-de', 'it-it', 'nl-nl']
+    obs.append(Ob('O3.6-multiplier-cut', 'fn', 'harness.C03:multiplier_cut', slices=[{'culture': c} for c in mc], timeout=t,
+                  descr='the multiplier step of _digit_number_parse (finite, exhaustive over tokens x separator layouts x spacings; composes with O3.2, which decides _get_digital_value for all digits): for every multiplier token of the culture '
+                        '(k, M, thousand, lakh, crore, mil, millions ...) behind a numeral of every layout, with 0..2 blanks, the literal\'s value is the bare numeral\'s value times the token\'s power, at parser level and through recognize_number',
+                  bounds='15..23 tokens x 8 numerals x 3 spacings per culture; only texts the culture extracts as one literal are judged; German / Dutch digit+word compounds are finding F58',
+                  encodes=['recognizers_number.number.parsers:BaseNumberParser._digit_number_parse']))
+    obs.append(Ob('O3.6-known-compound', 'fn', 'harness.C03:multiplier_cut', slices=[{'culture': c, 'f58': 'only'} for c in ('de-de', 'nl-nl')], timeout=t, finding='F58',
+                  descr='region of finding F58 (German / Dutch digit + multiplier word written together)'))
+    obs.append(Ob('O3.6-witness-plural', 'fn', 'harness.witness:api_witness', slices=[{'w': 'F57'}], timeout=t, finding='F57', descr='API witness of the repaired F57 (1.234 millions): a reappearance is a violation'))
     return obs
